@@ -532,7 +532,11 @@ func c13Layout(data []byte, form string, rng *Rng) ([]byte, string) {
 	case form == "yaml":
 		pad = append([]byte("# "), bytes.Repeat([]byte("-"), L-2)...)
 		pad = append(pad, '\n')
-		how = "comment-line"
+		how = "comment-line-behind-the-separator"
+		if at > 0 && rng.Chance(50) {
+			at -= 4 // in front of the "---\n" that starts the document: the last line of the previous one
+			how = "comment-line-in-front-of-the-separator"
+		}
 	case rng.Chance(50):
 		pad = append(bytes.Repeat([]byte(" "), L), '\n')
 		how = "blank-line"
@@ -550,7 +554,7 @@ func c13Layout(data []byte, form string, rng *Rng) ([]byte, string) {
 	out = append(out, data[at:]...)
 	nth := 0
 	for i, s := range starts {
-		if s <= at {
+		if s <= at+4 {
 			nth = i
 		}
 	}
